@@ -149,6 +149,7 @@ type srvScen struct {
 	tokens   map[string][]tokIssue      // ip16 hex -> tokens issued
 	announced map[string]map[string]int // ih hex -> raw ip hex -> port
 	intro    map[string]bool            // id/addrkey introduced by a direct event
+	failedSince map[string]bool         // id@addr whose last questionable-node ping failed and which has not answered since (harness truth)
 	pendingPing map[string]bool         // addresses the node may be pinging because the harness called AddNode with a zero ID there
 	pendingTx map[string]bool           // addr|t of the server's own queries that are really outstanding (harness truth)
 	answered map[string]bool            // id@addr that really answered one of the server's own queries (harness truth)
@@ -171,7 +172,7 @@ type tokIssue struct {
 }
 
 func (r *Run) newSrvScen(o srvOpts) *srvScen {
-	sc := &srvScen{r: r, o: o, mute: o.mute, tokens: map[string][]tokIssue{}, announced: map[string]map[string]int{}, intro: map[string]bool{}, answered: map[string]bool{}, pendingTx: map[string]bool{}, pendingPing: map[string]bool{}, nextPt: 10000}
+	sc := &srvScen{r: r, o: o, mute: o.mute, tokens: map[string][]tokIssue{}, announced: map[string]map[string]int{}, intro: map[string]bool{}, answered: map[string]bool{}, pendingTx: map[string]bool{}, pendingPing: map[string]bool{}, failedSince: map[string]bool{}, nextPt: 10000}
 	sc.dead = r.c14Full()
 	sc.conn = newFakeConn(nil)
 	cfg := baseConfig(sc.conn)
@@ -1022,6 +1023,7 @@ func (sc *srvScen) respondingNodeVia(addr *net.UDPAddr, id [20]byte, ro bool, pi
 	select {
 	case <-done:
 		sc.answered[hx(id[:])+"@"+dht.NewAddr(addr).String()] = true
+		delete(sc.failedSince, hx(id[:])+"@"+dht.NewAddr(addr).String())
 		// a contact that has just answered is not bad (unless its ID is the node's own, zero or, under
 		// enforcement, invalid for its IP): it must not be left marked as failing its last ping
 		key := hx(id[:]) + "@" + dht.NewAddr(addr).String()
